@@ -8,11 +8,16 @@ from canon import build, canon
 from core import file_roundtrip, observe_construct
 
 
-def check_type_dict(d, key, want):
-    """single-entry dict keyed `key` whose value is an integer ndarray equal to `want`"""
+def check_type_dict(d, key, want, seq_ok=False):
+    """single-entry dict keyed `key` whose value is an integer ndarray equal to `want`
+    (`seq_ok`: the caller itself supplied a type dictionary holding a plain sequence, which
+    parse_shape_argument passes through as given; the property's quantifier lists the dict form without saying
+    what it holds, so only the *content* is required then)"""
     if not isinstance(d, dict) or list(d.keys()) != [key]:
         return f"not a single-entry dict keyed {key!r}"
     v = d[key]
+    if seq_ok and isinstance(v, (list, tuple)):
+        return None if [int(x) for x in v] == list(want) else f"value {list(v)} != {list(want)}"
     if not isinstance(v, np.ndarray):
         return f"value is {type(v).__name__}, not ndarray"
     if v.dtype.kind not in "iu":
@@ -52,8 +57,10 @@ def run(ctx):
         if node is None:
             ctx.violate(case, "valid primitive rejected", {"site": rec["type"], "what": "rejected"}, observed=o)
         else:
-            e1 = check_type_dict(node.input_type, "input", want_in)
-            e2 = check_type_dict(node.output_type, "output", want_out)
+            seq_ok = any(isinstance(v, dict) and "d" in v and any(isinstance(x[1], dict) and ("t" in x[1] or "l" in x[1])
+                                                                    for x in v["d"]) for _, v in rec["kwargs"])
+            e1 = check_type_dict(node.input_type, "input", want_in, seq_ok)
+            e2 = check_type_dict(node.output_type, "output", want_out, seq_ok)
             rank0 = len(want_in) == 0
             if e1 or e2:
                 ctx.violate(case, f"{rec['type']} declared types are not the implied shapes: "
@@ -78,8 +85,8 @@ def run(ctx):
                             g = nir.NIRGraph(nodes={"n": node}, edges=[])
                             g2 = nir.NIRGraph.from_dict(g.to_dict()) if how == "dict" else file_roundtrip(g)
                         n2 = g2.nodes["n"]
-                        e1 = check_type_dict(n2.input_type, "input", want_in)
-                        e2 = check_type_dict(n2.output_type, "output", want_out)
+                        e1 = check_type_dict(n2.input_type, "input", want_in, seq_ok)
+                        e2 = check_type_dict(n2.output_type, "output", want_out, seq_ok)
                     except Exception as ex:  # noqa
                         e1 = f"{how} round trip raised {type(ex).__name__}"
                     if e1 or e2:
